@@ -779,6 +779,18 @@ func (c *evalCtx) call(x *ECall) val {
 		t := c.resolveType(x.Args[0].String())
 		v := c.eval(x.Args[1])
 		return val{t: fmt.Sprintf("(%s (i.val %s))", vc.eng.unboxFn(vc, t), v.t), typ: t}
+	case "box": // box(T, v): the interface value holding v of (non-pointer, non-integer) type T
+		argN(2)
+		t := c.resolveType(x.Args[0].String())
+		v := c.eval(x.Args[1])
+		switch t.Underlying().(type) {
+		case *types.Pointer, *types.Map, *types.Signature, *types.Chan:
+			return val{t: fmt.Sprintf("(mk-iface %s %s)", vc.typeID(t), v.t), typ: types.NewInterfaceType(nil, nil)}
+		}
+		if isIntType(t) {
+			return val{t: fmt.Sprintf("(mk-iface %s %s)", vc.typeID(t), v.t), typ: types.NewInterfaceType(nil, nil)}
+		}
+		return val{t: fmt.Sprintf("(mk-iface %s (%s %s))", vc.typeID(t), vc.eng.boxFn(vc, t), v.t), typ: types.NewInterfaceType(nil, nil)}
 	case "ifaceptr": // ifaceptr(iface): the pointer value boxed in an interface
 		argN(1)
 		v := c.eval(x.Args[0])
